@@ -100,4 +100,13 @@ CHECKS = {
           "permuted rows, folded to pitch classes and decoded back to notes; sampled over all option combinations and both time units.",
   "note": "Trusted: vmon/refmodels/pianoroll.py. Cell-exact only where onsets/durations lie on the frame grid; exact .5 frames are don't-care.",
  },
+ "C15": {
+  "technique": "post-condition hook on the real merge_parts: inputs fingerprinted before the call, result compared element-wise under the exact lcm rescale, voice/staff partition check",
+  "text": "Every merge_parts call is observed: the input parts are fingerprinted before the call (the function consumes them), and "
+          "the result must hold every note, rest and non-structural element at start*lcm/div, divisions equal to the lcm, structural "
+          "classes from the first part only, a voice (staff) partition in which same-input-and-same-old-voice <=> same-new-voice, a "
+          "single part returned as is, and sounding notes equal to the score-level note array taken beforehand. Workload: 2-5 aligned "
+          "parts with divisions whose lcm often exceeds all, missing staves, directions, as list/group/nested/Score x 3 modes.",
+  "note": "Trusted: gen_score aligned generator, vmon/refmodels/pitch.py. Classes the code drops beyond the documented list are don't-care.",
+ },
 }
